@@ -400,6 +400,17 @@ const FAULTS: &[(&str, &str, bool)] = &[
     ("excess-filter-argument", "{{ a | upcase: 1 }}", false),
     ("missing-filter-argument", "{{ a | append }}", false),
     ("unknown-keyword-argument", "{{ a | append: zz: 1 }}", false),
+    // right positional arity plus a named argument the filter does not have
+    ("unknown-keyword-argument-after-positionals", "{{ a | append: 'x', zz: 1 }}", false),
+    ("unknown-keyword-argument-before-positionals", "{{ 1 | plus: zz: 3, 2 }}", false),
+    ("unknown-keyword-argument-two-positionals", "{{ a | replace: 'x', 'y', zz: 1 }}", false),
+    // an unknown filter is an unknown filter wherever it is written
+    ("unknown-filter-on-assign-target", "{% assign q | nosuchfilter = 1 %}", false),
+    ("unknown-filter-on-capture-name", "{% capture q | nosuchfilter %}x{% endcapture %}", false),
+    ("unknown-filter-on-counter-name", "{% increment q | nosuchfilter %}", false),
+    ("unknown-filter-on-loop-variable", "{% for i | nosuchfilter in (1..2) %}{% endfor %}", false),
+    ("unknown-filter-in-assign-value", "{% assign q = a | nosuchfilter %}", false),
+    ("unknown-filter-in-condition", "{% if a | nosuchfilter %}{% endif %}", false),
     ("unclosed-if", "{% if a %}x", false),
     ("unclosed-for", "{% for i in a %}x", false),
     ("unclosed-capture", "{% capture q %}x", false),
